@@ -29,8 +29,18 @@ def obsOf (j : Json) : Obs :=
 def regsList (f : Nat → Reg) : List Reg := (List.range nRegs).map f
 
 /-! #### protocol models driven by schedule events -/
-def etcdEvent (s : Etcd) (ev : String) (p cls : Nat) : Etcd × String :=
+/-- a race of two registrations: the model serialises them, in the order the observation names
+    the winner (either order is a legal outcome of the protocol) -/
+def raceOrder (p q : Nat) (implRes : String) : Nat × Nat :=
+  if implRes == s!"win:{q}" then (q, p) else (p, q)
+
+def etcdEvent (s : Etcd) (ev : String) (p q cls : Nat) (implRes : String) : Etcd × String :=
   match ev with
+  | "race" =>
+    let (a, b) := raceOrder p q implRes
+    let (s1, ok1) := s.step (.register a cls)
+    let (s2, ok2) := s1.step (.register b cls)
+    (s2, if ok1 && ok2 then "win:both" else if ok1 then s!"win:{a}" else if ok2 then s!"win:{b}" else "win:none")
   | "reg" => let (s', ok) := s.step (.register p cls); (s', if ok then "ok" else "exists")
   | "dereg" => ((s.step (.deregister p)).1, "-")
   | "lapse" => (match s.key with | some l => (s.step (.expire l)).1 | none => s, "-")
@@ -46,8 +56,13 @@ def etcdObs (s : Etcd) (res : String) : Obs :=
     ttl := match s.key with | some l => clsName (s.ttl l) | none => "-",
     notified := (regsList s.regs).map fun r => r == .notified }
 
-def redisEvent (s : Redis) (ev : String) (p cls : Nat) : Redis × String :=
+def redisEvent (s : Redis) (ev : String) (p q cls : Nat) (implRes : String) : Redis × String :=
   match ev with
+  | "race" =>
+    let (a, b) := raceOrder p q implRes
+    let (s1, ok1) := s.step (.register a cls)
+    let (s2, ok2) := s1.step (.register b cls)
+    (s2, if ok1 && ok2 then "win:both" else if ok1 then s!"win:{a}" else if ok2 then s!"win:{b}" else "win:none")
   | "reg" => let (s', ok) := s.step (.register p cls); (s', if ok then "ok" else "exists")
   | "dereg" => ((s.step (.deregister p)).1, "-")
   | "lapse" => ((s.step .expire).1, "-")
@@ -77,7 +92,7 @@ structure Ghost where
 
 def setAt {α} (l : List α) (i : Nat) (v : α) : List α := l.set i v
 
-def ghostStep (b : String) (g : Ghost) (ev : String) (p cls : Nat) (o : Obs) : Ghost × List String :=
+def ghostStep (b : String) (g : Ghost) (ev : String) (p q cls : Nat) (o : Obs) : Ghost × List String :=
   let g0 := g
   let (g, tags) : Ghost × List String :=
     match ev with
@@ -86,6 +101,13 @@ def ghostStep (b : String) (g : Ghost) (ev : String) (p cls : Nat) (o : Obs) : G
         ({ g with creator := some p, regd := setAt g.regd p true, cls := setAt g.cls p cls,
                   lapsed := setAt g.lapsed p false },
          if g0.keyBefore then [s!"C26:{b}-register-over-existing"] else [])
+      else (g, [])
+    | "race" =>
+      let win := fun (w : Nat) (g : Ghost) =>
+        { g with creator := some w, regd := setAt g.regd w true, cls := setAt g.cls w cls, lapsed := setAt g.lapsed w false }
+      if o.res == "win:both" then (win q (win p g), [s!"C26:{b}-double-register"])
+      else if o.res == s!"win:{p}" then (win p g, if g0.keyBefore then [s!"C26:{b}-register-over-existing"] else [])
+      else if o.res == s!"win:{q}" then (win q g, if g0.keyBefore then [s!"C26:{b}-register-over-existing"] else [])
       else (g, [])
     | "dereg" =>
       let g' := { g with regd := setAt g.regd p false }
@@ -109,7 +131,10 @@ def ghostStep (b : String) (g : Ghost) (ev : String) (p cls : Nat) (o : Obs) : G
           (if believers.length > 1 then [s!"C26:{b}-not-exclusive"] else []) ++
           (if foreign then [s!"C26:{b}-foreign-refresh"] else []))
     | _ => (g, [])
-  ({ g with keyBefore := o.key }, tags)
+  -- a key whose creator is still registered may only disappear by a lapse or its creator's exit
+  let lost := (ev == "wait" || ev == "reg" || ev == "race") && g0.keyBefore && g0.creator.isSome && !o.key
+  ({ g with keyBefore := o.key, creator := if o.key then g.creator else none },
+   tags ++ (if lost then [s!"C26:{b}-foreign-delete"] else []))
 
 def dedupS : List String → List String
   | [] => []
@@ -125,17 +150,18 @@ def handle (j : Json) : Json :=
     let (se, sr, ge, gr, ok, tags, i, bad) := acc
     let ev := jstr (jget ej "ev")
     let p := jnat (jget ej "p")
+    let q := jnat (jget ej "q")
     let cls := clsOf (jstr (jget ej "cls"))
     let oe := obsOf (ie.getD i Json.null)
     let or_ := obsOf (ir.getD i Json.null)
-    let (se', re) := etcdEvent se ev p cls
-    let (sr', rr) := redisEvent sr ev p cls
+    let (se', re) := etcdEvent se ev p q cls oe.res
+    let (sr', rr) := redisEvent sr ev p q cls or_.res
     let me := etcdObs se' re
     let mr := redisObs sr' rr
     let okE := obsAgree ev me oe
     let okR := obsAgree ev mr or_
-    let (ge', te) := ghostStep "etcd" ge ev p cls oe
-    let (gr', tr) := ghostStep "redis" gr ev p cls or_
+    let (ge', te) := ghostStep "etcd" ge ev p q cls oe
+    let (gr', tr) := ghostStep "redis" gr ev p q cls or_
     let bad' := if (okE && okR) || bad.isSome then bad else
       some (Json.mkObj [("step", ji i), ("event", ej), ("backend", Json.str (if okE then "redis" else "etcd")),
         ("model", Json.str (reprStr (if okE then mr else me))), ("impl", Json.str (reprStr (if okE then or_ else oe)))])
